@@ -6,6 +6,7 @@ fn main() {
         "C04" => vp_sig::c04::run(&mut ctx),
         "C05" => vp_sig::c05::run(&mut ctx),
         "C08" => vp_sig::c08::run(&mut ctx),
+        "C11" => vp_sig::c11::run(&mut ctx),
         "C17" => vp_sig::c17::run(&mut ctx),
         "C20" => vp_sig::c20::run(&mut ctx),
         other => {
